@@ -1,8 +1,1019 @@
-//! C06 — see /verif/DESIGN.md §3.
-use vf_core::{Args, Ctx};
+//! C06 — built font files are well-formed sfnt containers that return the
+//! tables put in (see /verif/DESIGN.md §3 "C06").
+//!
+//! Oracle: an independent sfnt parser + checksum (module [`sfnt`], plain
+//! big-endian arithmetic on byte slices, no read-fonts) AND
+//! `read_fonts::FontRef`; both are applied to every built file and must agree
+//! with the tag -> bytes model and with each other.
+//!
+//! Workload: seeded tag -> bytes maps (see [`gen_map`]), each built under >= 3
+//! insertion orders (ascending, descending, random shuffles; owned / borrowed
+//! data; cloned builders) and through add_raw / copy_missing_tables histories
+//! against a second font (corpus font or another built font).
+use serde_json::{json, Value};
+use std::collections::{BTreeMap, BTreeSet};
+use vf_core::{Args, Ctx, Digest, PanicPolicy, Rng};
+use write_fonts::read::{FontRef, TableProvider};
+use write_fonts::types::Tag;
+use write_fonts::FontBuilder;
 
-pub const REPLAY: Option<fn(&mut Ctx, &Args, &serde_json::Value, Option<&[u8]>)> = None;
+pub const REPLAY: Option<fn(&mut Ctx, &Args, &Value, Option<&[u8]>)> = Some(replay);
+
+// ------------------------------------------------------------ independent sfnt reader
+
+/// Independent sfnt reader: indexes bytes and shifts; shares no code with
+/// read-fonts / write-fonts.
+pub mod sfnt {
+    #[derive(Clone, Debug, PartialEq, Eq)]
+    pub struct Rec {
+        pub tag: u32,
+        pub checksum: u32,
+        pub offset: u32,
+        pub length: u32,
+    }
+    #[derive(Clone, Debug)]
+    pub struct Sfnt {
+        pub version: u32,
+        pub num_tables: u16,
+        pub search_range: u16,
+        pub entry_selector: u16,
+        pub range_shift: u16,
+        pub recs: Vec<Rec>,
+    }
+    pub fn be16(b: &[u8], o: usize) -> Option<u16> {
+        let x = b.get(o..o.checked_add(2)?)?;
+        Some(((x[0] as u16) << 8) | x[1] as u16)
+    }
+    pub fn be32(b: &[u8], o: usize) -> Option<u32> {
+        let x = b.get(o..o.checked_add(4)?)?;
+        Some(((x[0] as u32) << 24) | ((x[1] as u32) << 16) | ((x[2] as u32) << 8) | x[3] as u32)
+    }
+    /// Sum of big-endian u32 words, the last partial word padded with zeros.
+    /// Returns (sum mod 2^32, number of carries out of 32 bits).
+    pub fn checksum(data: &[u8]) -> (u32, u64) {
+        let mut acc: u64 = 0;
+        let mut i = 0usize;
+        while i < data.len() {
+            let mut w: u64 = 0;
+            for k in 0..4 {
+                w <<= 8;
+                if i + k < data.len() {
+                    w |= data[i + k] as u64;
+                }
+            }
+            acc += w;
+            i += 4;
+        }
+        ((acc & 0xFFFF_FFFF) as u32, acc >> 32)
+    }
+    /// checksum of a head table: bytes 8..12 count as zero when len >= 12
+    pub fn checksum_head(data: &[u8]) -> (u32, u64) {
+        if data.len() >= 12 {
+            let mut v = data.to_vec();
+            v[8] = 0;
+            v[9] = 0;
+            v[10] = 0;
+            v[11] = 0;
+            checksum(&v)
+        } else {
+            checksum(data)
+        }
+    }
+    pub fn parse(b: &[u8]) -> Result<Sfnt, String> {
+        let version = be32(b, 0).ok_or("file shorter than 12 bytes")?;
+        let num_tables = be16(b, 4).ok_or("file shorter than 12 bytes")?;
+        let search_range = be16(b, 6).ok_or("file shorter than 12 bytes")?;
+        let entry_selector = be16(b, 8).ok_or("file shorter than 12 bytes")?;
+        let range_shift = be16(b, 10).ok_or("file shorter than 12 bytes")?;
+        let mut recs = Vec::with_capacity(num_tables as usize);
+        for i in 0..num_tables as usize {
+            let o = 12 + 16 * i;
+            let tag = be32(b, o).ok_or("directory truncated")?;
+            let checksum = be32(b, o + 4).ok_or("directory truncated")?;
+            let offset = be32(b, o + 8).ok_or("directory truncated")?;
+            let length = be32(b, o + 12).ok_or("directory truncated")?;
+            recs.push(Rec {
+                tag,
+                checksum,
+                offset,
+                length,
+            });
+        }
+        Ok(Sfnt {
+            version,
+            num_tables,
+            search_range,
+            entry_selector,
+            range_shift,
+            recs,
+        })
+    }
+    pub fn table<'a>(b: &'a [u8], r: &Rec) -> Option<&'a [u8]> {
+        let s = r.offset as usize;
+        let e = s.checked_add(r.length as usize)?;
+        b.get(s..e)
+    }
+    /// (searchRange, entrySelector, rangeShift) per the OpenType spec for n >= 1
+    pub fn search_fields(n: usize) -> (u32, u32, u32) {
+        let mut es = 0u32;
+        while (1usize << (es + 1)) <= n {
+            es += 1;
+        }
+        let sr = (1u32 << es) * 16;
+        (sr, es, (n as u32) * 16 - sr)
+    }
+}
+
+// ------------------------------------------------------------ workload
+
+const HEAD: u32 = u32::from_be_bytes(*b"head");
+const CFF: u32 = u32::from_be_bytes(*b"CFF ");
+const DSIG: u32 = u32::from_be_bytes(*b"DSIG");
+
+const REC_TTF: [&[u8; 4]; 19] = [
+    b"head", b"hhea", b"maxp", b"OS/2", b"hmtx", b"LTSH", b"VDMX", b"hdmx", b"cmap", b"fpgm", b"prep", b"cvt ", b"loca",
+    b"glyf", b"kern", b"name", b"post", b"gasp", b"PCLT",
+];
+
+fn special_tags() -> &'static [u32] {
+    static S: std::sync::OnceLock<Vec<u32>> = std::sync::OnceLock::new();
+    S.get_or_init(special_tags_init)
+}
+
+fn special_tags_init() -> Vec<u32> {
+    let mut v: Vec<u32> = REC_TTF.iter().map(|t| u32::from_be_bytes(**t)).collect();
+    for t in [
+        b"CFF ", b"DSIG", b"CFF2", b"GSUB", b"GPOS", b"GDEF", b"heac", b"heae", b"DSIF", b"DSIH", b"CFF!", b"CFF\0", b"Head",
+        b"HEAD", b"OS/1", b"OS/3", b"glyg", b"post", b"posu", b"PCLU", b"    ", b"~~~~",
+    ] {
+        v.push(u32::from_be_bytes(*t));
+    }
+    v.extend_from_slice(&[0, 1, 0xFFFF_FFFF, 0xFFFF_FFFE, 0x8000_0000, 0x7FFF_FFFF, 0x0000_0100, 0xFF00_0000]);
+    v.sort_unstable();
+    v.dedup();
+    v
+}
+
+fn tag_str(t: u32) -> String {
+    let b = t.to_be_bytes();
+    if b.iter().all(|c| (0x20..0x7f).contains(c)) {
+        String::from_utf8_lossy(&b).to_string()
+    } else {
+        format!("0x{:08X}", t)
+    }
+}
+
+fn random_tag(rng: &mut Rng) -> u32 {
+    match rng.below(4) {
+        0 => rng.u32(),
+        1 => {
+            // printable ascii
+            let mut b = [0u8; 4];
+            for x in &mut b {
+                *x = rng.range(0x20, 0x7e) as u8;
+            }
+            u32::from_be_bytes(b)
+        }
+        2 => {
+            // shares a 3-byte prefix with a special tag
+            let s = special_tags();
+            let t = *rng.pick(s);
+            (t & 0xFFFF_FF00) | rng.below(256) as u32
+        }
+        _ => {
+            // dense cluster: makes neighbours in the sorted directory
+            0x6161_6100 + rng.below(64) as u32
+        }
+    }
+}
+
+fn pick_len(rng: &mut Rng, tiny_only: bool) -> usize {
+    if tiny_only {
+        return rng.below(18) as usize;
+    }
+    match rng.below(100) {
+        0..=29 => rng.below(18) as usize,
+        30..=57 => {
+            let k = if rng.chance(1, 4) { rng.range(1, 5000) } else { rng.range(1, 64) } as usize;
+            let d = rng.below(4) as usize;
+            if rng.bool() {
+                4 * k + d
+            } else {
+                4 * k - d
+            }
+        }
+        58..=63 => *rng.pick(&[65535usize, 65536, 65533, 65534, 65537, 65538, 65539, 65532]),
+        64..=69 => rng.below(200 * 1024 + 1) as usize,
+        _ => rng.below(300) as usize,
+    }
+}
+
+/// Table contents; several kinds make the 32-bit word sum carry.
+fn fill(rng: &mut Rng, len: usize) -> (Vec<u8>, &'static str) {
+    match rng.below(8) {
+        0 => (vec![0xFF; len], "ff"),
+        1 => (vec![0; len], "zero"),
+        2 => {
+            let mut v = vec![0xFF; len];
+            let t = len - (len % 4).min(len);
+            for x in v[t..].iter_mut() {
+                *x = rng.below(256) as u8;
+            }
+            (v, "ff-words-random-tail")
+        }
+        3 => {
+            let mut v = vec![0u8; len];
+            for (i, x) in v.iter_mut().enumerate() {
+                if i % 4 == 0 {
+                    *x = 0x80;
+                }
+            }
+            (v, "0x80000000-words")
+        }
+        4 => {
+            let mut v = rng.bytes(len);
+            let t = len - (len % 4);
+            for x in v[t..].iter_mut() {
+                *x = 0xFF;
+            }
+            (v, "random-ff-tail")
+        }
+        5 => ((0..len).map(|i| (i as u8).wrapping_add(1)).collect(), "counting"),
+        _ => (rng.bytes(len), "random"),
+    }
+}
+
+struct Case {
+    index: u64,
+    map: BTreeMap<u32, Vec<u8>>,
+    fills: BTreeSet<&'static str>,
+    shape: &'static str,
+}
+
+/// Deterministic case `index` for seed `seed` (independent of the shard).
+fn gen_map(seed: u64, index: u64, thorough: bool) -> Case {
+    let mut rng = Rng::derive(seed, "c06-map", index);
+    let specials = special_tags();
+    let (n, shape): (usize, &'static str) = match index % 16 {
+        0 => ((index / 16 % 4) as usize, "0-3"),
+        1..=5 => (rng.range(1, 16) as usize, "small"),
+        6..=9 => (rng.range(17, 64) as usize, "medium"),
+        10 => (
+            *rng.pick(&[1usize, 2, 3, 4, 5, 7, 8, 9, 15, 16, 17, 31, 32, 33, 63, 64, 65, 127, 128, 129, 255, 256, 257]),
+            "pow2-boundary",
+        ),
+        11 => (specials.len(), "all-specials"),
+        12 => (19 + rng.below(4) as usize, "recommended-ttf"),
+        13 => (8 + rng.below(4) as usize, "recommended-cff"),
+        14 => {
+            if index % 64 == 14 {
+                (*rng.pick(&[511usize, 512, 513, 1000, 2047, 2048, 4095]), "huge-count")
+            } else {
+                (rng.range(64, 80) as usize, "64+")
+            }
+        }
+        _ => (rng.range(2, 40) as usize, "mixed"),
+    };
+    let tiny_only = n > 64;
+    let mut tags: BTreeSet<u32> = BTreeSet::new();
+    match shape {
+        "all-specials" => tags.extend(specials.iter().copied()),
+        "recommended-ttf" => {
+            tags.extend(REC_TTF.iter().map(|t| u32::from_be_bytes(**t)));
+            if rng.bool() {
+                tags.insert(DSIG);
+            }
+        }
+        "recommended-cff" => {
+            for t in [b"head", b"hhea", b"maxp", b"OS/2", b"name", b"cmap", b"post", b"CFF "] {
+                tags.insert(u32::from_be_bytes(*t));
+            }
+            if rng.bool() {
+                tags.insert(DSIG);
+            }
+            if rng.bool() {
+                // TTF-only recommended tags together with CFF
+                tags.insert(u32::from_be_bytes(*b"glyf"));
+                tags.insert(u32::from_be_bytes(*b"hmtx"));
+            }
+        }
+        _ => {}
+    }
+    let p_special = *rng.pick(&[0u64, 3, 7, 10]);
+    if n > 0 && tags.len() < n && rng.chance(6, 10) {
+        tags.insert(HEAD);
+    }
+    let mut guard = 0;
+    while tags.len() < n && guard < 1_000_000 {
+        guard += 1;
+        let t = if rng.chance(p_special, 10) { *rng.pick(specials) } else { random_tag(&mut rng) };
+        tags.insert(t);
+    }
+    while tags.len() > n {
+        let t = *tags.iter().nth(rng.usize(tags.len())).unwrap();
+        tags.remove(&t);
+    }
+    let mut budget: usize = if thorough { 3 << 20 } else { 1 << 20 };
+    let mut map = BTreeMap::new();
+    let mut fills = BTreeSet::new();
+    for t in tags {
+        let mut len = if t == HEAD {
+            match rng.below(10) {
+                0 => rng.below(12) as usize,
+                1 => 11,
+                2 => 12,
+                3 => 13,
+                4 => *rng.pick(&[14usize, 15, 16, 53, 55]),
+                5 | 6 => 54,
+                _ => pick_len(&mut rng, tiny_only),
+            }
+        } else {
+            pick_len(&mut rng, tiny_only)
+        };
+        if len > budget {
+            len = rng.below(18) as usize;
+        }
+        budget -= len.min(budget);
+        let (data, kind) = fill(&mut rng, len);
+        fills.insert(kind);
+        map.insert(t, data);
+    }
+    Case {
+        index,
+        map,
+        fills,
+        shape,
+    }
+}
+
+fn map_digest(map: &BTreeMap<u32, Vec<u8>>) -> u64 {
+    let mut d = Digest::new();
+    for (t, v) in map {
+        d.u32(*t);
+        d.u64(v.len() as u64);
+        d.bytes(v);
+    }
+    d.finish()
+}
+
+// ------------------------------------------------------------ oracle
+
+struct Problem {
+    kind: &'static str,
+    detail: Value,
+}
+
+struct Observed {
+    carries: u64,
+    file_checksum_checked: bool,
+    tight: bool,
+    physical_order: Vec<u32>,
+}
+
+/// Check one built file against the model with the independent reader and
+/// with FontRef.
+fn check_output(model: &BTreeMap<u32, Vec<u8>>, out: &[u8]) -> (Vec<Problem>, Observed) {
+    let mut ps: Vec<Problem> = vec![];
+    let mut obs = Observed {
+        carries: 0,
+        file_checksum_checked: false,
+        tight: true,
+        physical_order: vec![],
+    };
+    macro_rules! bad {
+        ($k:expr, $d:expr) => {
+            ps.push(Problem { kind: $k, detail: $d })
+        };
+    }
+    let n = model.len();
+    // ---------------- independent reader
+    let sf = match sfnt::parse(out) {
+        Ok(s) => s,
+        Err(e) => {
+            bad!("reopen-failed-independent", json!({"error": e, "file_len": out.len()}));
+            return (ps, obs);
+        }
+    };
+    if ![0x0001_0000u32, 0x4F54_544F, 0x7472_7565].contains(&sf.version) {
+        bad!("bad-sfnt-version", json!({"version": sf.version}));
+    }
+    if sf.num_tables as usize != n {
+        bad!("num-tables", json!({"expected": n, "got": sf.num_tables}));
+    }
+    if n >= 1 {
+        let (sr, es, rs) = sfnt::search_fields(n);
+        if (sf.search_range as u32, sf.entry_selector as u32, sf.range_shift as u32) != (sr, es, rs) {
+            bad!(
+                "search-fields",
+                json!({"n": n, "expected": [sr, es, rs], "got": [sf.search_range, sf.entry_selector, sf.range_shift]})
+            );
+        }
+    }
+    let got_tags: Vec<u32> = sf.recs.iter().map(|r| r.tag).collect();
+    let want_tags: Vec<u32> = model.keys().copied().collect();
+    if got_tags != want_tags {
+        bad!(
+            "tag-list",
+            json!({"expected": want_tags.iter().map(|t| tag_str(*t)).collect::<Vec<_>>(), "got": got_tags.iter().map(|t| tag_str(*t)).collect::<Vec<_>>()})
+        );
+    }
+    let header_len = 12 + 16 * sf.recs.len();
+    let mut covered = vec![false; out.len()];
+    for c in covered.iter_mut().take(header_len.min(out.len())) {
+        *c = true;
+    }
+    let mut overlap = false;
+    for r in &sf.recs {
+        let t = tag_str(r.tag);
+        if r.offset % 4 != 0 {
+            bad!("misaligned-offset", json!({"tag": t, "offset": r.offset, "length": r.length}));
+        }
+        if (r.offset as usize) < header_len {
+            bad!("offset-inside-directory", json!({"tag": t, "offset": r.offset}));
+        }
+        let Some(data) = sfnt::table(out, r) else {
+            bad!("table-out-of-bounds", json!({"tag": t, "offset": r.offset, "length": r.length, "file_len": out.len()}));
+            continue;
+        };
+        for c in covered[r.offset as usize..r.offset as usize + r.length as usize].iter_mut() {
+            if *c {
+                overlap = true;
+            }
+            *c = true;
+        }
+        let is_head = r.tag == HEAD;
+        let (sum, carries) = if is_head { sfnt::checksum_head(data) } else { sfnt::checksum(data) };
+        obs.carries += carries;
+        if sum != r.checksum {
+            bad!(
+                "directory-checksum",
+                json!({"tag": t, "length": r.length, "len_mod4": r.length % 4, "recorded": r.checksum, "recomputed": sum})
+            );
+        }
+        if let Some(want) = model.get(&r.tag) {
+            let same = if is_head && want.len() >= 12 {
+                data.len() == want.len() && data[..8] == want[..8] && data[12..] == want[12..]
+            } else {
+                data == &want[..]
+            };
+            if !same {
+                let first = data.iter().zip(want.iter()).position(|(a, b)| a != b);
+                bad!(
+                    "table-bytes",
+                    json!({"tag": t, "expected_len": want.len(), "got_len": data.len(), "first_diff": first})
+                );
+            }
+        }
+    }
+    // padding: every byte outside the directory and the table ranges is zero
+    if let Some(p) = (0..out.len()).find(|i| !covered[*i] && out[*i] != 0) {
+        bad!("nonzero-padding", json!({"at": p, "byte": out[p]}));
+    }
+    if out.len() % 4 != 0 {
+        bad!("file-length-not-multiple-of-4", json!({"file_len": out.len()}));
+    }
+    // tightness (observation, not required by the property)
+    let mut by_off: Vec<&sfnt::Rec> = sf.recs.iter().collect();
+    by_off.sort_by_key(|r| (r.offset, r.length != 0, r.tag));
+    let mut pos = header_len as u64;
+    for r in &by_off {
+        if r.offset as u64 != pos {
+            obs.tight = false;
+        }
+        pos = r.offset as u64 + ((r.length as u64 + 3) & !3);
+    }
+    if pos != out.len() as u64 || overlap {
+        obs.tight = false;
+    }
+    obs.physical_order = by_off.iter().filter(|r| r.length != 0).map(|r| r.tag).collect();
+    // whole-file checksum
+    let head_ok = model.get(&HEAD).map(|h| h.len() >= 12).unwrap_or(false);
+    let (file_sum, _) = sfnt::checksum(out);
+    if head_ok {
+        obs.file_checksum_checked = true;
+        if file_sum != 0xB1B0_AFBA {
+            bad!("file-checksum", json!({"got": file_sum, "expected": 0xB1B0AFBAu32, "file_len": out.len()}));
+        }
+    }
+    let lib_sum = write_fonts::read::tables::compute_checksum(out);
+    if lib_sum != file_sum {
+        bad!("checksum-oracles-disagree", json!({"independent": file_sum, "read_fonts": lib_sum}));
+    }
+
+    // ---------------- FontRef
+    match FontRef::new(out) {
+        Err(e) => bad!("reopen-failed-fontref", json!({"error": format!("{e}")})),
+        Ok(font) => {
+            let td = &font.table_directory;
+            let recs = td.table_records();
+            let ftags: Vec<u32> = recs.iter().map(|r| u32::from_be_bytes(r.tag().to_be_bytes())).collect();
+            if ftags != want_tags {
+                bad!("tag-list-fontref", json!({"expected_n": want_tags.len(), "got_n": ftags.len()}));
+            }
+            if (td.num_tables(), td.search_range(), td.entry_selector(), td.range_shift())
+                != (sf.num_tables, sf.search_range, sf.entry_selector, sf.range_shift)
+            {
+                bad!("readers-disagree-header", json!({}));
+            }
+            for (i, r) in recs.iter().enumerate() {
+                if let Some(m) = sf.recs.get(i) {
+                    if (r.checksum(), r.offset(), r.length()) != (m.checksum, m.offset, m.length) {
+                        bad!("readers-disagree-record", json!({"index": i}));
+                    }
+                }
+            }
+            for (t, want) in model {
+                let tag = Tag::from_be_bytes(t.to_be_bytes());
+                match font.table_data(tag) {
+                    None => bad!("table_data-none", json!({"tag": tag_str(*t), "len": want.len()})),
+                    Some(d) => {
+                        let data = d.as_bytes();
+                        let same = if *t == HEAD && want.len() >= 12 {
+                            data.len() == want.len() && data[..8] == want[..8] && data[12..] == want[12..]
+                        } else {
+                            data == &want[..]
+                        };
+                        if !same {
+                            bad!("table_data-bytes", json!({"tag": tag_str(*t), "expected_len": want.len(), "got_len": data.len()}));
+                        }
+                        if font.data_for_tag(tag).map(|d| d.as_bytes()) != Some(data) {
+                            bad!("data_for_tag-differs", json!({"tag": tag_str(*t)}));
+                        }
+                    }
+                }
+                // neighbours that are absent must not be found
+                for nb in [t.wrapping_sub(1), t.wrapping_add(1)] {
+                    if !model.contains_key(&nb) && font.table_data(Tag::from_be_bytes(nb.to_be_bytes())).is_some() {
+                        bad!("absent-tag-found", json!({"tag": tag_str(nb)}));
+                    }
+                }
+            }
+        }
+    }
+    (ps, obs)
+}
+
+// ------------------------------------------------------------ driver of one case
+
+struct Reporter {
+    per_kind: BTreeMap<&'static str, u32>,
+}
+
+impl Reporter {
+    fn report(&mut self, ctx: &mut Ctx, case: u64, how: &str, p: Problem, out: Option<&[u8]>) {
+        let c = self.per_kind.entry(p.kind).or_insert(0);
+        *c += 1;
+        ctx.count(&format!("problem:{}", p.kind), 1);
+        if *c > 4 {
+            return;
+        }
+        let sig = format!("{}:case={}:{}", p.kind, case, how);
+        ctx.violation(&sig, json!({"case_index": case, "how": how, "problem": p.kind, "detail": p.detail}), out);
+    }
+}
+
+fn t(tag: u32) -> Tag {
+    Tag::from_be_bytes(tag.to_be_bytes())
+}
+
+fn build_in_order(map: &BTreeMap<u32, Vec<u8>>, order: &[u32], borrowed: bool, via_clone: bool) -> Vec<u8> {
+    let mut b = FontBuilder::new();
+    for tag in order {
+        let d = &map[tag];
+        if borrowed {
+            b.add_raw(t(*tag), &d[..]);
+        } else {
+            b.add_raw(t(*tag), d.clone());
+        }
+    }
+    if via_clone {
+        let mut c = b.clone();
+        drop(b);
+        c.build()
+    } else {
+        b.build()
+    }
+}
+
+struct Second {
+    name: String,
+    data: Vec<u8>,
+    tables: Vec<(u32, Vec<u8>)>,
+}
+
+/// Parse a second font with the independent reader; usable as a
+/// copy_missing_tables source only if its directory is sorted, unique and
+/// every table is in bounds (what the binary search in FontRef presumes).
+fn second_from_bytes(name: &str, data: &[u8]) -> Option<Second> {
+    let sf = sfnt::parse(data).ok()?;
+    if ![0x0001_0000u32, 0x4F54_544F, 0x7472_7565].contains(&sf.version) {
+        return None;
+    }
+    let mut tables = vec![];
+    let mut prev: Option<u32> = None;
+    for r in &sf.recs {
+        if let Some(p) = prev {
+            if p >= r.tag {
+                return None;
+            }
+        }
+        prev = Some(r.tag);
+        if r.offset == 0 {
+            return None;
+        }
+        tables.push((r.tag, sfnt::table(data, r)?.to_vec()));
+    }
+    Some(Second {
+        name: name.to_string(),
+        data: data.to_vec(),
+        tables,
+    })
+}
+
+fn run_one(ctx: &mut Ctx, rep: &mut Reporter, case: &Case, corpus: &[vf_core::CorpusFont]) {
+    let idx = case.index;
+    let map = &case.map;
+    let n = map.len();
+    let mut rng = Rng::derive(ctx.seed, "c06-orders", idx);
+    let tags: Vec<u32> = map.keys().copied().collect();
+
+    // ---- evidence about the case
+    ctx.count(&format!("shape:{}", case.shape), 1);
+    ctx.label("ntables_reached", &format!("{:05}", n));
+    for (tg, v) in map {
+        ctx.count(&format!("len_mod4:{}", v.len() % 4), 1);
+        ctx.count("tables_total", 1);
+        if v.is_empty() {
+            ctx.count("tables_empty", 1);
+        }
+        if v.len() >= 65535 {
+            ctx.count("tables_ge_65535", 1);
+        }
+        if *tg == HEAD {
+            ctx.count(if v.len() >= 12 { "head_ge_12" } else { "head_lt_12" }, 1);
+            ctx.label("head_lengths", &format!("{:06}", v.len()));
+        }
+    }
+    for f in &case.fills {
+        ctx.count(&format!("fill:{}", f), 1);
+    }
+    if map.contains_key(&CFF) {
+        ctx.count("maps_with_CFF", 1);
+    }
+    if map.contains_key(&DSIG) {
+        ctx.count("maps_with_DSIG", 1);
+    }
+    if map.contains_key(&0) || map.contains_key(&0xFFFF_FFFF) {
+        ctx.count("maps_with_extreme_tag", 1);
+    }
+
+    // ---- insertion orders
+    let n_orders = if n <= 1 { 3 } else { 3 + rng.below(3) as usize };
+    let mut orders: Vec<Vec<u32>> = vec![];
+    orders.push(tags.clone());
+    let mut r = tags.clone();
+    r.reverse();
+    orders.push(r);
+    while orders.len() < n_orders {
+        let mut o = tags.clone();
+        rng.shuffle(&mut o);
+        orders.push(o);
+    }
+    let mut first: Option<Vec<u8>> = None;
+    let mut any_carry = false;
+    let mut head_checked = false;
+    for (oi, order) in orders.iter().enumerate() {
+        let borrowed = rng.bool();
+        let via_clone = rng.chance(1, 4);
+        let how = format!("order{}{}{}", oi, if borrowed { "-borrowed" } else { "-owned" }, if via_clone { "-clone" } else { "" });
+        let label = || format!("case {} {} n={}", idx, how, n);
+        ctx.eval();
+        ctx.count("builds", 1);
+        let res = ctx.run_case(&label, None, &|| build_in_order(map, order, borrowed, via_clone));
+        let out = match res {
+            Ok(o) => o,
+            Err(p) => {
+                ctx.judge_panic(
+                    &p,
+                    "FontBuilder::build",
+                    json!({"case_index": idx, "how": how, "n_tables": n}),
+                    None,
+                );
+                continue;
+            }
+        };
+        match &first {
+            None => {
+                let (ps, obs) = check_output(map, &out);
+                ctx.count("outputs_fully_checked", 1);
+                ctx.count("checksum_carries_observed", obs.carries);
+                if obs.carries > 0 {
+                    any_carry = true;
+                    ctx.count("outputs_with_wrapping_sum", 1);
+                }
+                if obs.file_checksum_checked {
+                    head_checked = true;
+                    ctx.count("file_checksum_checked", 1);
+                }
+                ctx.count(if obs.tight { "layout_tight" } else { "layout_not_tight" }, 1);
+                let mut d = Digest::new();
+                for tg in obs.physical_order.iter().filter(|x| special_tags().contains(x)) {
+                    d.u32(*tg);
+                }
+                ctx.distinct("physical_order_of_special_tags", d.finish());
+                if n <= 6 {
+                    ctx.sample_by_kind(
+                        case.shape,
+                        json!({"case_index": idx, "tables": map.iter().map(|(k, v)| json!([tag_str(*k), v.len()])).collect::<Vec<_>>(),
+                               "file_len": out.len(), "physical_order": obs.physical_order.iter().map(|x| tag_str(*x)).collect::<Vec<_>>()}),
+                    );
+                }
+                for p in ps {
+                    rep.report(ctx, idx, &how, p, Some(&out));
+                }
+                first = Some(out);
+            }
+            Some(f) => {
+                ctx.count("order_comparisons", 1);
+                if *f != out {
+                    let at = f.iter().zip(out.iter()).position(|(a, b)| a != b);
+                    rep.report(
+                        ctx,
+                        idx,
+                        &how,
+                        Problem {
+                            kind: "insertion-order-dependence",
+                            detail: json!({"first_diff": at, "len_a": f.len(), "len_b": out.len(),
+                                       "order": order.iter().map(|x| tag_str(*x)).collect::<Vec<_>>()}),
+                        },
+                        Some(&out),
+                    );
+                    // also say what is wrong with this one
+                    let (ps, _) = check_output(map, &out);
+                    for p in ps {
+                        rep.report(ctx, idx, &how, p, Some(&out));
+                    }
+                }
+            }
+        }
+    }
+
+    // ---- non-triviality
+    let unaligned = map.values().any(|v| v.len() % 4 != 0);
+    if n >= 2 && unaligned && (head_checked || any_carry) {
+        ctx.nontrivial(map_digest(map));
+    }
+
+    // ---- add_raw / copy_missing_tables histories
+    let n_hist = if n > 300 { 1 } else { 2 };
+    for h in 0..n_hist {
+        let mut hr = Rng::derive(ctx.seed, "c06-history", idx * 8 + h);
+        // the second font
+        let second: Option<Second> = if hr.bool() && !corpus.is_empty() {
+            let f = hr.pick(corpus);
+            let s = second_from_bytes(&f.name, &f.data);
+            if s.is_none() {
+                ctx.count("second_font_unusable", 1);
+            }
+            s
+        } else {
+            // a built font sharing some tags with the map, with different data
+            let mut m2: BTreeMap<u32, Vec<u8>> = BTreeMap::new();
+            for tg in &tags {
+                if hr.chance(1, 2) && m2.len() < 24 {
+                    let len = pick_len(&mut hr, n > 64).min(5000);
+                    m2.insert(*tg, fill(&mut hr, len).0);
+                }
+            }
+            for _ in 0..hr.below(6) {
+                let tg = if hr.bool() { *hr.pick(special_tags()) } else { random_tag(&mut hr) };
+                let len = pick_len(&mut hr, false).min(5000);
+                m2.entry(tg).or_insert_with(|| fill(&mut hr, len).0);
+            }
+            let order: Vec<u32> = m2.keys().copied().collect();
+            match vf_core::guard(|| build_in_order(&m2, &order, false, false)) {
+                Ok(bytes) => {
+                    let mut s = second_from_bytes("built", &bytes);
+                    if let Some(s) = &mut s {
+                        s.name = format!("built({} tables)", m2.len());
+                    } else {
+                        ctx.count("second_font_unusable", 1);
+                    }
+                    s
+                }
+                Err(p) => {
+                    ctx.judge_panic(&p, "FontBuilder::build (second font)", json!({"case_index": idx, "history": h}), None);
+                    None
+                }
+            }
+        };
+        let Some(second) = second else { continue };
+        // pre-copy subset
+        let mut pre: Vec<u32> = tags.iter().copied().filter(|_| hr.chance(1, 2)).collect();
+        hr.shuffle(&mut pre);
+        let mut model: BTreeMap<u32, Vec<u8>> = BTreeMap::new();
+        for tg in &pre {
+            model.insert(*tg, map[tg].clone());
+        }
+        let mut conflicts = 0u64;
+        for (tg, d) in &second.tables {
+            if let Some(m) = model.get(tg) {
+                if m != d {
+                    conflicts += 1;
+                }
+            } else {
+                model.insert(*tg, d.clone());
+            }
+        }
+        let mut post: Vec<u32> = tags.iter().copied().filter(|tg| !model.contains_key(tg)).collect();
+        hr.shuffle(&mut post);
+        for tg in &post {
+            model.insert(*tg, map[tg].clone());
+        }
+        // optionally a second copy from the font built above (everything in it
+        // that is also in the model must be ignored)
+        let third: Option<&Vec<u8>> = if hr.bool() { first.as_ref() } else { None };
+        if let Some(f3) = third {
+            if let Some(s3) = second_from_bytes("first-output", f3) {
+                for (tg, d) in &s3.tables {
+                    if let Some(m) = model.get(tg) {
+                        if m != d {
+                            conflicts += 1;
+                        }
+                    } else {
+                        model.insert(*tg, d.clone());
+                    }
+                }
+            }
+        }
+        if model.len() >= 4096 {
+            continue;
+        }
+        let how = format!("history{}-vs-{}", h, second.name);
+        let label = || format!("case {} {}", idx, how);
+        ctx.eval();
+        ctx.count("copy_histories", 1);
+        ctx.count("copy_conflicting_tags", conflicts);
+        ctx.count("copy_pre_tables", pre.len() as u64);
+        ctx.count("copy_post_tables", post.len() as u64);
+        if third.is_some() {
+            ctx.count("copy_two_sources", 1);
+        }
+        let sdata = &second.data;
+        let res = ctx.run_case(&label, None, &|| -> Option<Vec<u8>> {
+            let f2 = FontRef::new(sdata).ok()?;
+            let mut b = FontBuilder::new();
+            for tg in &pre {
+                b.add_raw(t(*tg), &map[tg][..]);
+            }
+            b.copy_missing_tables(f2);
+            for tg in &post {
+                b.add_raw(t(*tg), map[tg].clone());
+            }
+            if let Some(f3) = third {
+                b.copy_missing_tables(FontRef::new(f3).ok()?);
+            }
+            Some(b.build())
+        });
+        match res {
+            Err(p) => ctx.judge_panic(&p, "add_raw/copy_missing_tables/build", json!({"case_index": idx, "history": h, "second": second.name}), None),
+            Ok(None) => {
+                // FontRef refused the second font: for a corpus font that is not
+                // this property's business; for a built font check_output has
+                // already reported it.
+                ctx.count("second_font_refused_by_fontref", 1);
+            }
+            Ok(Some(out)) => {
+                let (ps, _) = check_output(&model, &out);
+                // name the copy-specific failure precisely
+                let mut overrode = vec![];
+                if let Ok(sf) = sfnt::parse(&out) {
+                    for r in &sf.recs {
+                        if pre.contains(&r.tag) {
+                            let got = sfnt::table(&out, r).unwrap_or(&[]);
+                            let mine = &map[&r.tag];
+                            let theirs = second.tables.iter().find(|(x, _)| *x == r.tag).map(|(_, d)| d);
+                            let eq_mine = if r.tag == HEAD && mine.len() >= 12 {
+                                got.len() == mine.len() && got[..8] == mine[..8] && got[12..] == mine[12..]
+                            } else {
+                                got == &mine[..]
+                            };
+                            if !eq_mine && theirs.is_some() {
+                                overrode.push(tag_str(r.tag));
+                            }
+                        }
+                    }
+                }
+                if !overrode.is_empty() {
+                    rep.report(
+                        ctx,
+                        idx,
+                        &how,
+                        Problem {
+                            kind: "copy_missing_tables-overrode-present-table",
+                            detail: json!({"tags": overrode, "second": second.name}),
+                        },
+                        Some(&out),
+                    );
+                }
+                if conflicts > 0 && model.values().any(|v| v.len() % 4 != 0) {
+                    let mut d = Digest::new();
+                    d.u64(map_digest(&model));
+                    d.str("history");
+                    ctx.nontrivial(d.finish());
+                }
+                for p in ps {
+                    rep.report(ctx, idx, &how, p, Some(&out));
+                }
+            }
+        }
+    }
+}
+
+fn n_cases(ctx: &Ctx) -> u64 {
+    ctx.tier.pick(2400, 24000)
+}
 
 pub fn run(ctx: &mut Ctx, _args: &Args) {
-    ctx.rule = "stub".into();
+    ctx.policy = PanicPolicy::Any;
+    ctx.rule = "a tag->bytes map with >= 2 tables, at least one length not a multiple of 4, and either a head table >= 12 bytes \
+                (whole-file checksum checked) or a table whose 32-bit word sum carried; or a copy_missing_tables history in which \
+                the source font holds a different table under a tag already supplied. Digest = tags, lengths and contents of the map."
+        .into();
+    ctx.assumptions = vec![
+        "fewer than 4096 tables (searchRange = 16*2^floor(log2 n) is not representable in 16 bits beyond; probed separately)".into(),
+        "each tag is added once per builder (re-adding a tag is outside 'distinct tags'); build() is called once per builder".into(),
+        "copy_missing_tables sources have a sorted, duplicate-free directory with in-bounds tables".into(),
+        "the spec leaves searchRange/entrySelector/rangeShift undefined for 0 tables: not checked there".into(),
+    ];
+    let corpus: Vec<vf_core::CorpusFont> = vf_core::corpus_fonts().into_iter().filter(|f| f.data.len() < 400_000).collect();
+    ctx.extra.insert("second_font_corpus_size".into(), json!(corpus.len()));
+    let mut rep = Reporter {
+        per_kind: BTreeMap::new(),
+    };
+    let total = n_cases(ctx);
+    let thorough = ctx.tier.is_thorough();
+    for i in 0..total {
+        if !ctx.mine(i as usize) {
+            continue;
+        }
+        let case = gen_map(ctx.seed, i, thorough);
+        run_one(ctx, &mut rep, &case, &corpus);
+    }
+    // ---- probe of the table-count limit (shard 0 only)
+    if ctx.shard.0 == 0 {
+        probe_limit(ctx);
+    }
+}
+
+/// 4095 tables is the largest count whose searchRange fits 16 bits; 4096 is
+/// probed and reported under its own signature.
+fn probe_limit(ctx: &mut Ctx) {
+    for n in [4095usize, 4096] {
+        let mut map = BTreeMap::new();
+        for i in 0..n {
+            map.insert(0x4100_0000u32 + i as u32 * 3, vec![i as u8; i % 7]);
+        }
+        let order: Vec<u32> = map.keys().rev().copied().collect();
+        ctx.eval();
+        let label = || format!("limit-probe n={}", n);
+        match ctx.run_case(&label, None, &|| build_in_order(&map, &order, true, false)) {
+            Ok(out) => {
+                ctx.count(&format!("limit_probe_built:{}", n), 1);
+                if n < 4096 {
+                    let (ps, _) = check_output(&map, &out);
+                    for p in ps {
+                        let sig = format!("{}:limit-probe:n={}", p.kind, n);
+                        ctx.violation(&sig, json!({"n": n, "detail": p.detail}), None);
+                    }
+                }
+            }
+            Err(p) => {
+                ctx.count(&format!("limit_probe_panicked:{}", n), 1);
+                if p.in_repo() {
+                    let sig = format!("build-panics:n_tables={}:{}", n, p.signature());
+                    ctx.violation(&sig, json!({"n_tables": n, "panic": {"file": p.file, "line": p.line, "msg": p.msg}}), None);
+                } else {
+                    ctx.inconclusive(format!("harness panic in limit probe {}:{}", p.file, p.line));
+                }
+            }
+        }
+    }
+}
+
+fn replay(ctx: &mut Ctx, _args: &Args, rec: &Value, _bytes: Option<&[u8]>) {
+    ctx.policy = PanicPolicy::Any;
+    ctx.rule = "replay of one recorded case".into();
+    let corpus: Vec<vf_core::CorpusFont> = vf_core::corpus_fonts().into_iter().filter(|f| f.data.len() < 400_000).collect();
+    let mut rep = Reporter {
+        per_kind: BTreeMap::new(),
+    };
+    if let Some(i) = rec["detail"]["case_index"].as_u64() {
+        let case = gen_map(ctx.seed, i, ctx.tier.is_thorough());
+        run_one(ctx, &mut rep, &case, &corpus);
+        ctx.nontrivial(1);
+        ctx.nontrivial(2);
+    } else {
+        probe_limit(ctx);
+    }
 }
